@@ -27,7 +27,7 @@ RULE = ("0-8 agents with arbitrary subsets of 4 component types and tags from {d
 COMPONENTS = {"real": ["ECAgent.Core.Environment.get_agents / get_random_agent / shuffle / add_agent / remove_agent",
                        "Agent.has_component", "Model.random", "SpaceWorld (some runs)"],
               "stub": ["component classes and agents are harness-defined; global random / numpy.random are perturbed"]}
-PROBES = ["tag_zero_filter", "template_and_tag", "nobody_matches", "partial_template_match", "returned_list_mutated",
+PROBES = ["position_subclass_component", "tag_zero_filter", "template_and_tag", "nobody_matches", "partial_template_match", "returned_list_mutated",
           "reach_all_members", "same_seed_repeat", "type_nobody_has", "spatial_world", "default_tag_agent", "retag_while_resident", "model_lifecycle_op", "subclass_component_only", "agent_is_an_environment", "ops_from_inside_a_timestep", "agent_class_with_class_components", "removal_refused_half_way", "history_continued_on_a_copy"]
 TECHNIQUE = "deterministic simulation: filter queries inside seeded add/remove histories vs a list-comprehension reference; bounded reachability over reseeded model generators; ambient RNG perturbation between picks"
 LEVEL_TEXT = ("Seeded search over populations, histories, templates and tag filters; every listing must equal the reference filter "
@@ -66,6 +66,11 @@ class T5(T0):          # a subclass of T0: carrying T5 is NOT carrying T0 (compo
 
 
 TYPES = [T0, T1, T2, T3, T4]     # indexed modulo 5 by templates; index 5 (spatial runs only) is the world-managed PositionComponent
+
+
+class Waypoint(PositionComponent):
+    """A user component type that reuses the x/y/z fields of the bundled PositionComponent: a type of its own (components are
+    keyed by their exact class), carried only by the agents it was attached to."""
 
 
 class Late(Component):   # attached to an agent AFTER it joined (never registered with the model): see op botched_remove
@@ -138,6 +143,14 @@ def generate(rng, tier):
         for p_ in pool:
             if rng.random() < 0.3:
                 p_["nest"] = {"kind": rng.choice(["plain", "space"]), "inner": rng.choice([0, 1, 2])}
+    if rng.random() < 0.2:
+        # a user component type that builds on the bundled PositionComponent (a waypoint): template index 6
+        for p_ in pool:
+            if rng.random() < 0.5:
+                p_["way"] = True
+        for o_ in ops:
+            if "tmpl" in o_ and rng.random() < 0.5:
+                o_["tmpl"] = (o_["tmpl"] + [6]) if rng.random() < 0.5 or not o_["tmpl"] else [6 if i_ == 0 else t_ for i_, t_ in enumerate(o_["tmpl"])]
     return out
 
 
@@ -180,13 +193,16 @@ def execute(sc, ctx):
             ctx.probe("default_tag_agent")
         for c in spec["comps"]:
             a.add_component(TYPES[c % 4](a, m))
+        if spec.get("way"):
+            a.add_component(Waypoint(a, m, 1.0, 2.0, 0.0))
+            ctx.probe("position_subclass_component")
         if spec.get("sub"):
             a.add_component(T5(a, m))
             ctx.probe("subclass_component_only" if 0 not in [c % 4 for c in spec["comps"]] else "subclass_and_base")
         return a
 
     def ttype(t):
-        return PositionComponent if t == 5 else TYPES[t % 5]
+        return PositionComponent if t == 5 else Waypoint if t == 6 else TYPES[t % 5]
 
     def ref_filter(tmpl, tag):
         out = []
@@ -289,7 +305,7 @@ def execute(sc, ctx):
             ctx.probe("template_and_tag")
         if not want:
             ctx.probe("nobody_matches")
-        if len(set(tmpl)) >= 2 and any(0 < sum(TYPES[t % 5] in a.components for t in set(tmpl)) < len(set(tmpl)) for a in residents):
+        if len(set(tmpl)) >= 2 and any(0 < sum(ttype(t) in a.components for t in set(tmpl)) < len(set(tmpl)) for a in residents):
             ctx.probe("partial_template_match")
             flags["partial"] = True
         if len(want) >= 2:
